@@ -26,9 +26,11 @@ def run_linepos_case(case):
     from tatsu.input.textlines import TextLines
     text, infos = case['text'], case['info']
     bad = []
-    for cls in (TextLines, Buffer):
+    for cls, moved in ((TextLines, False), (Buffer, False), (TextLines, True), (Buffer, True)):
         try:
             c = cls(text).newcursor()
+            if moved:
+                c.goto(len(text))          # the answers are about the offset asked, not about where the cursor is
         except Exception as e:  # noqa: BLE001
             bad.append({'cursor': cls.__name__, 'offset': None, 'observed': f'constructor raised {type(e).__name__}: {e}'})
             continue
@@ -50,7 +52,7 @@ def run_linepos_case(case):
                 got['poscol'] = f'{type(e).__name__}: {e}'
             diff = {k: (got.get(k), want[k]) for k in want if got.get(k) != want[k]}
             if diff:
-                bad.append({'cursor': cls.__name__, 'offset': o, 'eot': o == len(text), 'diff': diff})
+                bad.append({'cursor': cls.__name__ + (' (cursor moved to the end)' if moved else ''), 'offset': o, 'eot': o == len(text), 'diff': diff})
     return bad
 
 
@@ -81,7 +83,7 @@ def part_a(ck, tier):
     res = pmap(run_linepos_case, cases, procs=16, chunk=100, recycle=100000)
     npoints = 0
     for c, bad in zip(cases, res):
-        npoints += len(c['info']) * 2
+        npoints += len(c['info']) * 4
         if len(ck.cov['samples']) < 2 and len(c['text']) == 4 and '\n' in c['text']:
             ck.sample({'text': c['text'], 'table': c['info']})
         for b in bad:
